@@ -455,7 +455,7 @@ class kFlowDecomp(pathmodel.AbstractPathModelDAG):
         non_empty_paths = []
         non_empty_weights = []
         for path, weight in zip(solution["paths"], solution["weights"]):
-            if len(path) > 1:
+            if len(path) > 1 or (len(path) == 1 and self.flow_attr_origin == "node"):
                 non_empty_paths.append(path)
                 non_empty_weights.append(weight)
         return {"paths": non_empty_paths, "weights": non_empty_weights}
